@@ -237,6 +237,14 @@ func checkC03(c *c03Case) error {
 	if !sameNodeList(l.ns, r.ns) {
 		return fmt.Errorf("union is not associative: %s = %v but %s = %v", l.text, refsOfCursors(l.ns, p.loc), r.text, refsOfCursors(r.ns, p.loc))
 	}
+	// a longer chain that repeats operands selects the same nodes
+	chain, err := get(xast.Union(xast.Union(xast.Union(xast.Union(xast.Union(c.A, c.B), c.C), c.A), c.C), c.B))
+	if err != nil {
+		return err
+	}
+	if !sameNodeList(l.ns, chain.ns) {
+		return fmt.Errorf("repeating operands changes a union: %s = %v but %s = %v", l.text, refsOfCursors(l.ns, p.loc), chain.text, refsOfCursors(chain.ns, p.loc))
+	}
 	aa, err := get(xast.Union(c.A, c.A))
 	if err != nil {
 		return err
